@@ -392,8 +392,8 @@ lyd_diff_add(const struct lyd_node *node, enum lyd_diff_op op, const char *orig_
         dup = diff_parent;
     } else {
         diff_opts = LYD_DUP_NO_META | LYD_DUP_WITH_PARENTS | LYD_DUP_WITH_FLAGS | LYD_DUP_NO_LYDS;
-        if ((op != LYD_DIFF_OP_REPLACE) || !lysc_is_userordered(node->schema) || (node->schema->flags & LYS_CONFIG_R)) {
-            /* move applies only to the user-ordered list, no descendants */
+        if ((op != LYD_DIFF_OP_REPLACE) || !lysc_is_userordered(node->schema) || lysc_is_dup_inst_list(node->schema)) {
+            /* move applies only to the user-ordered list, no descendants (all descendants identify a key-less list instance) */
             diff_opts |= LYD_DUP_RECURSIVE;
         }
 
